@@ -13,6 +13,7 @@ import (
 	"hash/fnv"
 	"math/rand/v2"
 	"strings"
+	"time"
 
 	"cuelabs.dev/go/oci/ociregistry"
 	"cuelabs.dev/go/oci/ociregistry/ocifilter"
@@ -365,6 +366,129 @@ func listingWithItemOnError(run *evid.Run, idx int) {
 	}
 }
 
+// listingUnderDoneContext: the caller's context is done (cancelled before the call, cancelled by the
+// consumer after k items, or past its deadline) while the wrapped registry - like ocimem, or any registry
+// that has its answer in memory - goes on delivering names. The wrapped registry called directly with
+// that context delivers every name, so the wrapper delivers exactly the names the policy allows. The
+// judgement is lenient where the property's text leaves room: a listing cut short WITH the context's
+// error is accepted; a name the wrapped registry never delivered, a rejected name, or a listing that
+// ends early without any error is not.
+func listingUnderDoneContext(run *evid.Run, idx int) {
+	names := []string{"a/allowed", "b/secret", "c/allowed", "d/allowed", "e/secret", "f/allowed"}
+	rejected := map[string]bool{"b/secret": true, "e/secret": true}
+	if idx%7 == 6 {
+		rejected = map[string]bool{}
+	}
+	var want []string
+	for _, n := range names {
+		if !rejected[n] {
+			want = append(want, n)
+		}
+	}
+	backend := &ociregistry.Funcs{
+		Repositories_: func(ctx context.Context, startAfter string) ociregistry.Seq[string] {
+			return func(yield func(string, error) bool) {
+				for _, n := range names {
+					if !yield(n, nil) {
+						return
+					}
+				}
+			}
+		},
+		Tags_: func(ctx context.Context, repo, startAfter string) ociregistry.Seq[string] {
+			return ociregistry.SliceSeq(want)
+		},
+	}
+	mode := []string{"cancelled-before", "cancel-after-1", "cancel-after-2", "expired-deadline", "cancel-after-3"}[idx%5]
+	for _, sel := range []bool{false, true} {
+		var reg ociregistry.Interface
+		variant := "accesschecker"
+		if sel {
+			variant = "select"
+			reg = ocifilter.Select(backend, func(repo string) bool { return !rejected[repo] })
+		} else {
+			reg = ocifilter.AccessChecker(backend, func(repo string, kind ocifilter.AccessKind) error {
+				if rejected[repo] {
+					return &policyErr{repo, kind}
+				}
+				return nil
+			})
+		}
+		for _, method := range []string{"Repositories", "Tags"} {
+			ctx, cancel := context.WithCancel(context.Background())
+			switch mode {
+			case "cancelled-before":
+				cancel()
+			case "expired-deadline":
+				c2, cancel2 := context.WithDeadline(ctx, time.Unix(1, 0))
+				defer cancel2()
+				ctx = c2
+			}
+			cancelAfter := map[string]int{"cancel-after-1": 1, "cancel-after-2": 2, "cancel-after-3": 3}[mode]
+			type item struct {
+				name string
+				err  error
+			}
+			var got []item
+			run.Eval(1)
+			ok := run.Case("total/"+variant, map[string]any{"op": method + " with a context that is " + mode}, func() {
+				seq := reg.Repositories(ctx, "")
+				if method == "Tags" {
+					seq = reg.Tags(ctx, "a/allowed", "")
+				}
+				seq(func(name string, err error) bool {
+					got = append(got, item{name, err})
+					if len(got) == cancelAfter {
+						cancel()
+					}
+					return err == nil
+				})
+			})
+			cancel()
+			if !ok {
+				continue
+			}
+			run.Count("listings_under_done_context", 1)
+			run.Distinct(fmt.Sprintf("listing-done-context/%s/%s/%s", variant, method, mode))
+			var shown []string
+			for _, it := range got {
+				shown = append(shown, fmt.Sprintf("(%q, %v)", it.name, it.err))
+			}
+			wit := map[string]any{"variant": variant, "method": method, "context": mode, "delivered": shown, "wrapped_registry_delivers": names, "policy_rejects": rejected}
+			n := 0
+			bad := false
+			for _, it := range got {
+				if it.err != nil {
+					break
+				}
+				if rejected[it.name] {
+					run.Violation("rejected-in-listing/"+variant+"/done-context", fmt.Sprintf("%s delivered %q, which the policy rejects", method, it.name), wit)
+					bad = true
+					break
+				}
+				if n >= len(want) || it.name != want[n] {
+					run.Violation("allowed-call-differs/"+variant+"/"+method+"/done-context/invented-item", fmt.Sprintf("%s delivered %q with a nil error; the wrapped registry, called with the same context, delivers %q and the next allowed name would be %q", method, it.name, names, append(want, "<end>")[min(n, len(want))]), wit)
+					bad = true
+					break
+				}
+				n++
+			}
+			if bad {
+				continue
+			}
+			if last := got[len(got)-1:]; len(got) > 0 && last[0].err != nil {
+				if !errors.Is(last[0].err, context.Canceled) && !errors.Is(last[0].err, context.DeadlineExceeded) {
+					run.Violation("allowed-call-differs/"+variant+"/"+method+"/done-context/error", fmt.Sprintf("%s ended with %v; the wrapped registry reports no error and the policy rejected nothing that was asked for", method, last[0].err), wit)
+				}
+				continue
+			}
+			if n < len(want) {
+				run.Violation("allowed-call-differs/"+variant+"/"+method+"/done-context/truncated-silently", fmt.Sprintf("%s delivered %d of the %d allowed names and ended without an error", method, n, len(want)), wit)
+			}
+		}
+	}
+}
+
 func main() {
 	run := evid.Start("C12", "exploration")
 	run.SetRule("exhaustive core: every Interface method × every allow/deny assignment to the (repository, access kind) pairs it needs (both sides of a mount) × {AccessChecker, Select} × populated backend states; then random histories under random pure policies (hash of seed, name, kind) with the twin registry kept in step for allowed calls. " +
@@ -489,6 +613,10 @@ func main() {
 		listingWithItemOnError(run, i)
 	}
 	run.FloorCounter("listings_with_item_on_error", 100)
+	for i := 0; i < 70; i++ {
+		listingUnderDoneContext(run, i)
+	}
+	run.FloorCounter("listings_under_done_context", 200)
 	run.FloorCounter("listing_filtered_out", 10)
 	run.FloorCounter("star_name_calls", 20)
 	run.Finish()
